@@ -112,6 +112,16 @@ CHECKS = {
         "applied through a seeding subclass of stochastic members); a member's state means a deep __dict__ snapshot; election semantics are C13's.",
    technique="Lean 4 proof (induction over the member list and the op list, delivered-calls simulation) + twin-run differential correspondence with malformed-call injection",
    ref="§7 C12"),
+ "C14": dict(
+   text="Lean 4 theorems for all histories and container orders: accepted row counts (stream exactly 1, batch >= 2; y rules), streaming width / name stability once "
+        "an accepted input fixes them, batch stability outside the proved DataFrame-after-array gap (width_stable_partial + the counter-example), a rejected call "
+        "is a no-op and all later traces equal those of the run that never saw it (generic update skeleton with idempotent pending reset; per-wrapper no-op "
+        "lemmas for the univariate guards and HDM), container irrelevance. Tied to detector.py and the per-detector guards by exhaustive base-class call "
+        "sequences over a container menu and per-detector malformed-call injection at every position with never-saw-it twins.",
+   note="Trusted: hand-written validation model (string column names); bounded correspondence. Known finding (recorded, a repair breaks an existing test): batch "
+        "DataFrame-after-array width gap.",
+   technique="Lean 4 proof (invariants, induction over histories, simulation) + exhaustive base-class correspondence + malformed-call injection twins on the real detectors",
+   ref="§7 C14"),
  "C15": dict(
    text="Lean 4 noninterference and inputs-unchanged theorems for an ownership discipline (copy on validation, detector operations read only detector-owned "
         "locations, injectors work on fresh copies), with a proved counter-model for aliasing (a detector keeping the caller's location is not covered). "
